@@ -176,7 +176,7 @@ func (b *CCFeedbackReport) Unmarshal(rawPacket []byte) error {
 	b.ReportBlocks = []CCFeedbackReportBlock{}
 	for offset < reportTimestampOffset {
 		var block CCFeedbackReportBlock
-		if err := block.unmarshal(rawPacket[offset:]); err != nil {
+		if err := block.unmarshal(rawPacket[offset:reportTimestampOffset]); err != nil {
 			return err
 		}
 		b.ReportBlocks = append(b.ReportBlocks, block)
